@@ -247,6 +247,7 @@ type argSpec struct {
 
 type ptrProblem struct {
 	Commit, Path, Blob string
+	Mode               string // "100644" | "100755"
 }
 
 type expectation struct {
@@ -256,6 +257,7 @@ type expectation struct {
 	ObjPaths    map[string][]string // every referencing path of an oid in the checked set
 	ObjExcluded map[string]bool     // damaged, referenced only through fetchexclude'd paths: must not be checked
 	ObjIdxOnly  map[string]bool     // damaged and referenced only by index entries (not by a checked commit's tree)
+	ObjExecOnly map[string]bool     // damaged and every entry of the checked set that names it has mode 100755
 	Referenced  int
 	CanonOids   []string // non-empty objects named by a canonical pointer of the checked set (independent of the store; generator input for later rounds)
 	// pointers
@@ -265,6 +267,8 @@ type expectation struct {
 	PtrBlobs     map[string]bool // blob ids that may be named
 	PtrIndexOnly map[string]bool // problem paths that exist only in the index (not judged either way)
 	TrackedSeen  int
+	TrackedExec  int // tracked regular files with mode 100755
+	TrackedLinks int // symbolic links under a tracked pattern (not judged)
 	Checked      []string
 }
 
@@ -276,7 +280,7 @@ func (ri *repoInfo) resolveRange(a, b string) []string {
 
 // expect computes the reference verdict. snap is the pre-run snapshot of .git/lfs.
 func (ri *repoInfo) expect(as argSpec, fx []string, snap map[string]sbx.StoreEntry) *expectation {
-	ex := &expectation{ObjRequired: map[string]string{}, ObjAllowed: map[string]bool{}, ObjPaths: map[string][]string{}, ObjExcluded: map[string]bool{}, ObjIdxOnly: map[string]bool{},
+	ex := &expectation{ObjRequired: map[string]string{}, ObjAllowed: map[string]bool{}, ObjPaths: map[string][]string{}, ObjExcluded: map[string]bool{}, ObjIdxOnly: map[string]bool{}, ObjExecOnly: map[string]bool{},
 		PtrPairs: map[string]bool{}, PtrPaths: map[string]bool{}, PtrBlobs: map[string]bool{}, PtrIndexOnly: map[string]bool{}}
 	var commits []string
 	switch as.Form {
@@ -296,17 +300,21 @@ func (ri *repoInfo) expect(as argSpec, fx []string, snap map[string]sbx.StoreEnt
 	type ref struct {
 		canonNew bool // canonical pointer blob that counts for "required"
 		canon    bool // named by some canonical pointer
+		nonExec  bool // named by some entry whose mode is not 100755
 		paths    map[string]bool
 		size     int64
 	}
 	refs := map[string]*ref{}
-	addRef := func(oid string, size int64, path string, required bool) {
+	addRef := func(oid string, size int64, path, mode string, required bool) {
 		r := refs[oid]
 		if r == nil {
 			r = &ref{paths: map[string]bool{}, size: size}
 			refs[oid] = r
 		}
 		r.paths[path] = true
+		if mode != "100755" {
+			r.nonExec = true
+		}
 		if size >= 0 {
 			r.canon = true
 		}
@@ -325,15 +333,22 @@ func (ri *repoInfo) expect(as argSpec, fx []string, snap map[string]sbx.StoreEnt
 	}
 	scan := func(ents []treeEnt) {
 		for _, e := range ents {
+			bi := ri.Blobs[e.Sha]
 			if e.Mode == "120000" {
+				// a link is not a pointer file; but the object scan of git-lfs reads every small blob, so
+				// an object named by a link's target text may be checked, need not be
+				if bi.Canon != nil && bi.Canon.Size > 0 {
+					addRef(bi.Canon.Oid, -1, e.Path, e.Mode, false)
+				} else if bi.Loose != "" {
+					addRef(bi.Loose, -1, e.Path, e.Mode, false)
+				}
 				continue
 			}
-			bi := ri.Blobs[e.Sha]
 			if bi.Canon != nil && bi.Canon.Size > 0 {
-				addRef(bi.Canon.Oid, bi.Canon.Size, e.Path, !oldBlobs[e.Sha])
+				addRef(bi.Canon.Oid, bi.Canon.Size, e.Path, e.Mode, !oldBlobs[e.Sha])
 			} else if bi.Loose != "" {
 				// parseable-looking but non-canonical text: the object it names may be checked, need not be
-				addRef(bi.Loose, -1, e.Path, false)
+				addRef(bi.Loose, -1, e.Path, e.Mode, false)
 			}
 		}
 	}
@@ -384,6 +399,9 @@ func (ri *repoInfo) expect(as argSpec, fx []string, snap map[string]sbx.StoreEnt
 		if !inCommit[oid] {
 			ex.ObjIdxOnly[oid] = true
 		}
+		if !r.nonExec {
+			ex.ObjExecOnly[oid] = true
+		}
 		// man page: files whose paths match lfs.fetchexclude "will not be checked for consistency".
 		switch {
 		case nExcl == len(paths):
@@ -410,12 +428,18 @@ func (ri *repoInfo) expect(as argSpec, fx []string, snap map[string]sbx.StoreEnt
 	for _, c := range commits {
 		ci := ri.Commits[c]
 		for _, e := range ci.Ents {
+			if ci.Tracked[e.Path] && !isRegular(e.Mode) {
+				ex.TrackedLinks++ // symbolic link under a tracked pattern: not a file the filter applies to, not judged
+			}
 			if !ci.Tracked[e.Path] || !isRegular(e.Mode) {
 				continue
 			}
 			ex.TrackedSeen++
+			if e.Mode == "100755" {
+				ex.TrackedExec++
+			}
 			if ri.Blobs[e.Sha].Canon == nil {
-				probs = append(probs, ptrProblem{c, e.Path, e.Sha})
+				probs = append(probs, ptrProblem{c, e.Path, e.Sha, e.Mode})
 				probPaths = append(probPaths, e.Path)
 			}
 		}
